@@ -95,7 +95,6 @@ func c15ValidateLogConfig(r *Run) {
 		{"rejects-every-certificate", []SgAtom{sgBool("p0.RejectExpired || *GetRejectExpired(p0)", "T"), sgBool("p0.RejectUnexpired || *GetRejectUnexpired(p0)", "T")}},
 		{"start-timestamp-invalid", []SgAtom{start("non"), sgNil("(*timestamppb.Timestamp).CheckValid(*NotAfterStart*)", "non")}},
 		{"limit-timestamp-invalid", []SgAtom{limit("non"), sgNil("(*timestamppb.Timestamp).CheckValid(*NotAfterLimit*)", "non")}},
-		{"limit-before-start", []SgAtom{start("non"), limit("non"), sgOrd("*NotAfterLimit", "*NotAfterStart", "<")}},
 		{"frozen-sth-verifier-unavailable", []SgAtom{frozen("non"), sgNil("ct.NewSignatureVerifier(*)#1", "non")}},
 		{"frozen-sth-malformed", []SgAtom{frozen("non"), sgNil("(*ct.GetSTHResponse).ToSignedTreeHead(*)#1", "non")}},
 		{"frozen-sth-signature-invalid", []SgAtom{frozen("non"), sgNil("(ct.SignatureVerifier).VerifySTHSignature(*)", "non")}},
@@ -107,7 +106,13 @@ func c15ValidateLogConfig(r *Run) {
 	for _, c := range causes {
 		r.SgRejects(fn, k+c.name, c.c...)
 	}
-	r.Floor("rejection causes of ValidateLogConfig", len(causes), 18)
+	// limit before start: both bounds configured and valid (the invalid ones are the two causes above), the
+	// validated limit instant before the validated start instant.  The presence of a bound may be re-tested on
+	// the validated pointer instead of the configuration field: the walk follows it there (WalkRefined).
+	vStart, vLimit := c15ValidatedInstant(r, fn, "NotAfterStart"), c15ValidatedInstant(r, fn, "NotAfterLimit")
+	valid := func(f string) SgAtom { return sgNil("(*timestamppb.Timestamp).CheckValid(*"+f+"*)", "nil") }
+	c15RejectsRefined(r, fn, k+"limit-before-start", start("non"), limit("non"), valid("NotAfterStart"), valid("NotAfterLimit"), sgOrd(vLimit, vStart, "<"))
+	r.Floor("rejection causes of ValidateLogConfig", len(causes)+1, 18)
 
 	succ := sgOkReturns(fn)
 	// merge delays: exact on sample orderings of (max, expected, 0)
@@ -123,14 +128,14 @@ func c15ValidateLogConfig(r *Run) {
 	}
 	// window order: exact on the three orderings, decided on the converted instants
 	for _, lim := range []int64{0, 1, 2} {
-		s, bound := r.SgModel(fn, map[string]int64{"*NotAfterLimit": lim, "*NotAfterStart": 1})
-		for _, c := range []SgAtom{start("non"), limit("non")} {
+		s, bound := r.SgModel(fn, map[string]int64{vLimit: lim, vStart: 1})
+		for _, c := range []SgAtom{start("non"), limit("non"), valid("NotAfterStart"), valid("NotAfterLimit")} {
 			if b, err := r.sgBind(fn, c); err == nil {
-				b.set(s, "non")
+				b.set(s, c.Val)
 			}
 		}
 		r.Valuations++
-		got := sgAnyReach(r.D.Walk(fn, s, nil, nil), succ) != nil
+		got := sgAnyReach(r.WalkRefined(fn, s, nil, nil, nil), succ) != nil
 		r.Check(fmt.Sprintf("%swindow-order[limit-start=%d]", k, lim-1), got == (lim >= 1) && len(bound) == 1, r.FnPos(fn),
 			fmt.Sprintf("both bounds present: accepting return reachable=%v, statement (window ordered, empty window allowed) says %v; atoms %v", got, lim >= 1, bound))
 	}
@@ -549,10 +554,12 @@ func c15Getters(r *Run) {
 			func(val map[string]string, reach *Reach, s Sigma) {
 				var got []string
 				var hit *ssa.Store
+				var hitVal ssa.Value
 				for _, st := range sts {
 					if reach.Has(st) {
-						got = append(got, r.D.D(st.Val))
-						hit = st
+						// one store of a value merged from the three branches reads as the branch taken on this walk
+						got = append(got, r.D.DUnder(st.Val, reach))
+						hit, hitVal = st, phiLeafUnder(st.Val, reach)
 					}
 				}
 				want := "new:trillian/ctfe.LogSTHGetter#*"
@@ -566,7 +573,7 @@ func c15Getters(r *Run) {
 				key := fmt.Sprintf("%sgetter[frozen=%s,mirror=%s]", k, val["fz"], val["mi"])
 				if r.Check(key, len(got) == 1 && glob(want, got[0]), r.FnPos(fn), fmt.Sprintf("sthGetter ← %v, statement wants %s", got, want)) {
 					// keyed by the role of the field ("sth": what FrozenSTHGetter.GetSTH returns, "st": the storage MirrorSTHGetter.GetSTH queries)
-					if a := baseAlloc(hit.Val); a == nil {
+					if a := baseAlloc(hitVal); a == nil || hit == nil {
 						r.Fail(key, r.FnPos(fn), "undecided: value "+r.D.D(hit.Val)+" is not built in a local allocation")
 					} else {
 						for _, f := range keysOf(fields) {
@@ -814,4 +821,122 @@ func c15Sigma(r *Run, fn *ssa.Function, c SgAtom) Sigma {
 		b.set(s, strings.Split(c.Val, ",")[0])
 	}
 	return s
+}
+
+// c15ValidatedInstant names (as "a || b" operand globs) the instant that the validated configuration carries
+// in its pointer field f: the pointee of the field, or of any pointer value that is stored into the field (a
+// local that holds the converted bound until validation is over; what such a pointer points to is decided by
+// the window.<f>=config obligation).
+func c15ValidatedInstant(r *Run, fn *ssa.Function, f string) string {
+	alts := []string{"*" + f}
+	for _, st := range r.StoresTo(fn, "&(new:trillian/ctfe.ValidatedLogConfig#*."+f+")") {
+		if !isNilConst(st.Val) {
+			if t := "*" + r.D.D(st.Val); !strings.Contains(t, " || ") {
+				alts = append(alts, t)
+			}
+		}
+	}
+	return strings.Join(alts, " || ")
+}
+
+// c15RejectsRefined is SgRejects with the walk sharpened for decisions that are re-tested on a derived value
+// (WalkRefined: φ-nodes over the edges σ leaves open, loads of fields of a local struct).
+func c15RejectsRefined(r *Run, fn *ssa.Function, key string, cause ...SgAtom) bool {
+	succ := sgOkReturns(fn)
+	if len(succ) == 0 {
+		return r.Check(key, false, r.FnPos(fn), "undecided: "+FuncName(fn)+" has no success return")
+	}
+	var bs []*sgBound
+	for _, c := range cause {
+		b, err := r.sgBind(fn, c)
+		if err != nil {
+			return r.Check(key, false, r.FnPos(fn), "undecided: "+err.Error())
+		}
+		bs = append(bs, b)
+	}
+	ok, detail := true, ""
+	idx := make([]int, len(cause))
+	lists := make([][]string, len(cause))
+	for i, c := range cause {
+		lists[i] = strings.Split(c.Val, ",")
+	}
+	for {
+		s := Sigma{}
+		for i, b := range bs {
+			b.set(s, lists[i][idx[i]])
+		}
+		r.Valuations++
+		if m := sgAnyReach(r.WalkRefined(fn, s, nil, nil, nil), succ); m != nil {
+			ok, detail = false, fmt.Sprintf("the success return at %s is reachable under %s", r.Where(m), s)
+		}
+		i := 0
+		for ; i < len(idx); i++ {
+			idx[i]++
+			if idx[i] < len(lists[i]) {
+				break
+			}
+			idx[i] = 0
+		}
+		if i == len(idx) {
+			break
+		}
+	}
+	last := len(bs) - 1
+	for _, good := range domains[bs[last].kind] {
+		if isBad(cause[last].Val, good) {
+			continue
+		}
+		s := Sigma{}
+		for j, bj := range bs {
+			if j == last {
+				bj.set(s, good)
+			} else {
+				bj.set(s, lists[j][0])
+			}
+		}
+		r.Valuations++
+		if sgAnyReach(r.WalkRefined(fn, s, nil, nil, nil), succ) == nil {
+			ok, detail = false, fmt.Sprintf("the success return is unreachable even under %s: blocked more broadly than by the cause (control)", s)
+		}
+	}
+	if ok {
+		var ks []string
+		for _, b := range bs {
+			ks = append(ks, b.keys...)
+		}
+		detail = fmt.Sprintf("the success return unreachable under the cause, reachable when its decisive atom is good; atoms %v", ks)
+	}
+	return r.Check(key, ok, r.Where(succ[0]), detail)
+}
+
+// phiLeafUnder follows φ-nodes (through interface boxing) along the one incoming edge the walk takes; a merge
+// that the walk does not resolve is returned as it is.
+func phiLeafUnder(v ssa.Value, reach *Reach) ssa.Value {
+	for i := 0; i < 8; i++ {
+		switch x := v.(type) {
+		case *ssa.MakeInterface:
+			if ph, ok := x.X.(*ssa.Phi); ok {
+				v = ph
+				continue
+			}
+			return v
+		case *ssa.ChangeInterface:
+			v = x.X
+			continue
+		case *ssa.Phi:
+			var live []ssa.Value
+			for j, pred := range x.Block().Preds {
+				if reach.Edges[[2]int{pred.Index, x.Block().Index}] {
+					live = append(live, x.Edges[j])
+				}
+			}
+			if len(live) != 1 {
+				return v
+			}
+			v = live[0]
+			continue
+		}
+		return v
+	}
+	return v
 }
